@@ -58,6 +58,9 @@ pub enum Kind {
     Dep = 12,
 }
 
+/// `Sp` events with these stages mark a task that an already registered thread runs itself (a = chunk size)
+pub const SP_INLINE_BEGIN: u16 = 100;
+pub const SP_INLINE_END: u16 = 101;
 pub const DEP_CLAIM: u16 = 1;
 pub const DEP_SPIN: u16 = 2;
 pub const DEP_SKIP: u16 = 3;
@@ -217,6 +220,11 @@ pub struct Frame {
 }
 
 struct State {
+    /// OS thread ids of workers that have passed their exit hook since the last token hand-over: whoever gets
+    /// the token next first waits until these threads are really gone, so that whatever the library does on a
+    /// worker thread after the hook (storing the result, a wrapper around the task) happens at the exit point
+    /// of the schedule and not at a wall-clock dependent moment
+    exiting: Vec<u32>,
     active: bool,
     free: bool,
     current: usize,
@@ -268,6 +276,7 @@ impl State {
             since_starved: 0,
             grow_steps: 0,
             last_sp: None,
+            exiting: vec![],
             quiet_ctr: 0,
             spinning: vec![],
             spin_fail: vec![],
@@ -367,6 +376,7 @@ pub fn begin_run(cfg: Cfg) {
         steps: 0,
     });
     SLOT.with(|s| s.set(0));
+    INLINE.with(|d| d.set(0));
     drop(st);
     set_mode(MODE_SIM);
 }
@@ -583,6 +593,11 @@ fn wait_for_token(mut st: MutexGuard<'static, State>, me: usize) {
     let mut seen = (st.steps, st.quiet_ctr, st.log.len(), st.rescues);
     loop {
         if st.free || st.current == me {
+            let gone = std::mem::take(&mut st.exiting);
+            drop(st);
+            for t in gone {
+                wait_thread_gone(Some(t));
+            }
             return;
         }
         let (g, t) = match sim().cv[me].wait_timeout(st, Duration::from_millis(500)) {
@@ -616,6 +631,7 @@ fn wait_for_token(mut st: MutexGuard<'static, State>, me: usize) {
                         st.current = next;
                         sim().cv[next].notify_all();
                         if next == me {
+                            st.exiting.clear();
                             return;
                         }
                     } else {
@@ -987,7 +1003,7 @@ fn wait_thread_gone(tid: Option<u32>) {
         let path = format!("/proc/self/task/{}", t);
         let t0 = std::time::Instant::now();
         while std::path::Path::new(&path).exists() {
-            if t0.elapsed() > Duration::from_secs(5) {
+            if t0.elapsed() > Duration::from_secs(2) {
                 break;
             }
             std::thread::yield_now();
@@ -995,8 +1011,20 @@ fn wait_thread_gone(tid: Option<u32>) {
     }
 }
 
+thread_local! {
+    /// depth of tasks that a thread which already has a slot (the calling thread, or a worker) runs itself
+    static INLINE: Cell<u32> = const { Cell::new(0) };
+}
+
 fn hook_worker_enter(chunk: usize) {
     if mode() != MODE_SIM {
+        return;
+    }
+    if current_slot() != NO_SLOT {
+        // a thread that is already under the scheduler runs a task itself (e.g. the calling thread taking part
+        // in the work): no new slot, its closures stay attributed to its own slot
+        INLINE.with(|d| d.set(d.get() + 1));
+        event(Kind::Sp, SP_INLINE_BEGIN, chunk as u64, 0, true);
         return;
     }
     let mut st = lock();
@@ -1032,6 +1060,13 @@ fn hook_worker_exit(panicking: bool) {
         return;
     }
     let me = current_slot();
+    if me != NO_SLOT && INLINE.with(|d| d.get()) > 0 {
+        INLINE.with(|d| d.set(d.get() - 1));
+        if !panicking {
+            event(Kind::Sp, SP_INLINE_END, 0, 0, true);
+        }
+        return;
+    }
     if me == NO_SLOT || me == 0 {
         return;
     }
@@ -1042,6 +1077,11 @@ fn hook_worker_exit(panicking: bool) {
     let f = st.slots[me].frame;
     st.slots[me].status = Status::Done;
     st.frames[f].exited += 1;
+    if let Some(t) = st.slots[me].tid {
+        if !st.free {
+            st.exiting.push(t);
+        }
+    }
     if st.free {
         return;
     }
